@@ -1,6 +1,7 @@
 /- Helper lemmas about the context kernel (`AsphaltModel/Context.lean`). -/
 import AsphaltModel.Context
 import AsphaltProofs.Lemmas.Assoc
+import AsphaltProofs.Lemmas.ExitWith
 
 namespace Asphalt
 namespace K2
@@ -524,16 +525,37 @@ theorem step_enter_eq (w : World) (t : TaskId) (c : CtxId) (x : Ctx)
       simp only [enteredCtx, hpar] at hq
       simp [step, hx, hs, hpar, enteredCtx, hq]
 
+/-- The context `c` after its block was left and the stack `st` was torn down: state `closed`. -/
+def exitedWith (c : CtxId) (cur : Option CtxId) (be : BlockEnd) (st : List Cb) (x : Ctx) : Ctx :=
+  { (runTeardown c cur be st { x with state := .closing, tds := [] }).1 with state := .closed }
+
 /-- The context `c` after its block was left: teardown callbacks run, state `closed`. -/
 def exitedCtx (c : CtxId) (cur : Option CtxId) (be : BlockEnd) (x : Ctx) : Ctx :=
-  { (runTeardown c cur be (effStack be x.tds) { x with state := .closing, tds := [] }).1 with state := .closed }
+  exitedWith c cur be (effStack be x.tds) x
+
+/-- … and when the scope was cancelled during callback `k` of the teardown. -/
+def exitedMidCtx (c : CtxId) (cur : Option CtxId) (be : BlockEnd) (k : Nat) (x : Ctx) : Ctx :=
+  exitedWith c cur be (midEff be k x.tds) x
+
+theorem exitWith_eq (w : World) (t : TaskId) (c : CtxId) (be : BlockEnd) (stk : List Cb → List Cb)
+    (x : Ctx) (hx : w.ctx? c = some x) (hs : x.state = .opened) :
+    ∃ w2, ChildrenUpd ((w.setCtx c (exitedWith c (w.curOf t) be (stk x.tds) x)).setCur t
+        (x.token.getD none)) w2 ∧
+      (exitWith w t c be stk).1 = w2 := by
+  refine ⟨_, removeChild_upd _ x.parent c, ?_⟩
+  simp [exitWith, hx, hs, exitedWith]
 
 theorem step_exit_eq (w : World) (t : TaskId) (c : CtxId) (be : BlockEnd) (x : Ctx)
     (hx : w.ctx? c = some x) (hs : x.state = .opened) :
     ∃ w2, ChildrenUpd ((w.setCtx c (exitedCtx c (w.curOf t) be x)).setCur t (x.token.getD none)) w2 ∧
       (step w (.exit t c be)).1 = w2 := by
-  refine ⟨_, removeChild_upd _ x.parent c, ?_⟩
-  simp [step, hx, hs, exitedCtx]
+  rw [step_exit_exitWith]; exact exitWith_eq w t c be _ x hx hs
+
+theorem step_exitMid_eq (w : World) (t : TaskId) (c : CtxId) (be : BlockEnd) (k : Nat) (x : Ctx)
+    (hx : w.ctx? c = some x) (hs : x.state = .opened) :
+    ∃ w2, ChildrenUpd ((w.setCtx c (exitedMidCtx c (w.curOf t) be k x)).setCur t (x.token.getD none)) w2 ∧
+      (step w (.exitMid t c be k)).1 = w2 := by
+  rw [step_exitMid_exitWith]; exact exitWith_eq w t c be _ x hx hs
 
 /-- The effect on its context of an operation that is local to one context. -/
 inductive LocalStep (c : CtxId) (x : Ctx) : Ctx → Prop
@@ -560,6 +582,7 @@ theorem step_cases (w : World) (op : Op) :
       ∃ q : Option CtxId, (step w op).1 = w.setCtx c (freshCtx q (q.bind w.ctx?))) ∨
     (∃ t c x, op = .enter t c ∧ w.ctx? c = some x ∧ x.state = .inactive) ∨
     (∃ t c be x, op = .exit t c be ∧ w.ctx? c = some x ∧ x.state = .opened) ∨
+    (∃ t c be k x, op = .exitMid t c be k ∧ w.ctx? c = some x ∧ x.state = .opened) ∨
     (∃ t t', op = .spawn t t') := by
   cases op with
   | new t c p =>
@@ -584,6 +607,13 @@ theorem step_cases (w : World) (op : Op) :
     | some x =>
       by_cases hs : x.state = .opened
       · right; right; right; right; left; exact ⟨t, c, be, x, rfl, h, hs⟩
+      · left; simp [step, h, hs]
+  | exitMid t c be k =>
+    cases h : w.ctx? c with
+    | none => left; simp [step, h]
+    | some x =>
+      by_cases hs : x.state = .opened
+      · right; right; right; right; right; left; exact ⟨t, c, be, k, x, rfl, h, hs⟩
       · left; simp [step, h, hs]
   | add c a =>
     rcases onCtx_cases w c (fun x => ctxAdd c x a) with h | ⟨x, hx, h⟩
@@ -620,7 +650,7 @@ theorem step_cases (w : World) (op : Op) :
           simp [h1, h2]
   | current t => left; simp only [step]; split <;> rfl
   | parentOf c => left; simp only [step]; split <;> rfl
-  | spawn t t' => right; right; right; right; right; exact ⟨t, t', rfl⟩
+  | spawn t t' => right; right; right; right; right; right; exact ⟨t, t', rfl⟩
   | stateOf c => left; simp only [step]; split <;> rfl
   | inject t isAsync deps badUnion =>
     cases badUnion with
@@ -666,19 +696,49 @@ theorem step_exit_ctx (w : World) (t : TaskId) (c : CtxId) (be : BlockEnd) (x : 
   rw [he]
   exact hu.ctx?_some c _ (by rw [World.ctx?_setCur]; exact World.ctx?_setCtx_same _ _ _)
 
+theorem step_exitMid_ctx (w : World) (t : TaskId) (c : CtxId) (be : BlockEnd) (k : Nat) (x : Ctx)
+    (hx : w.ctx? c = some x) (hs : x.state = .opened) :
+    ∃ ch, (step w (.exitMid t c be k)).1.ctx? c =
+      some { exitedMidCtx c (w.curOf t) be k x with children := ch } := by
+  obtain ⟨w2, hu, he⟩ := step_exitMid_eq w t c be k x hx hs
+  rw [he]
+  exact hu.ctx?_some c _ (by rw [World.ctx?_setCur]; exact World.ctx?_setCtx_same _ _ _)
+
+theorem exitedWith_token (c : CtxId) (cur : Option CtxId) (be : BlockEnd) (st : List Cb) (x : Ctx) :
+    (exitedWith c cur be st x).token = x.token ∧ (exitedWith c cur be st x).parent = x.parent :=
+  ⟨(runTeardown_frame c cur be st _).2.2.1, (runTeardown_frame c cur be st _).1⟩
+
 theorem exitedCtx_token (c : CtxId) (cur : Option CtxId) (be : BlockEnd) (x : Ctx) :
     (exitedCtx c cur be x).token = x.token ∧ (exitedCtx c cur be x).parent = x.parent :=
-  ⟨(runTeardown_frame c cur be (effStack be x.tds) _).2.2.1, (runTeardown_frame c cur be (effStack be x.tds) _).1⟩
+  exitedWith_token c cur be _ x
+
+theorem exitedMidCtx_token (c : CtxId) (cur : Option CtxId) (be : BlockEnd) (k : Nat) (x : Ctx) :
+    (exitedMidCtx c cur be k x).token = x.token ∧ (exitedMidCtx c cur be k x).parent = x.parent :=
+  exitedWith_token c cur be _ x
+
+/-- Leaving the block of one context does not touch the parent, state or token of another. -/
+theorem exitWith_ctx_other (w : World) (t : TaskId) (c' : CtxId) (be : BlockEnd)
+    (stk : List Cb → List Cb) (x' : Ctx) (hx' : w.ctx? c' = some x') (hs' : x'.state = .opened)
+    (c : CtxId) (x : Ctx) (hx : w.ctx? c = some x) (hcc : c' ≠ c) :
+    ∃ y, (exitWith w t c' be stk).1.ctx? c = some y ∧ y.parent = x.parent ∧ y.state = x.state ∧
+      y.token = x.token := by
+  obtain ⟨w2, hu, he⟩ := exitWith_eq w t c' be stk x' hx' hs'
+  obtain ⟨ch, hch⟩ := hu.ctx?_some c x
+    (by rw [World.ctx?_setCur, World.ctx?_setCtx_other _ _ _ _ hcc]; exact hx)
+  rw [he, hch]
+  exact ⟨_, rfl, rfl, rfl, rfl⟩
 
 /-- Apart from entering an inactive context and leaving an open one, no operation touches the
 parent, state or token of an existing context. -/
 theorem step_ctx_other (w : World) (op : Op) (c : CtxId) (x : Ctx) (hx : w.ctx? c = some x)
     (hent : ∀ t, op = .enter t c → x.state ≠ .inactive)
-    (hexit : ∀ t be, op = .exit t c be → x.state ≠ .opened) :
+    (hexit : ∀ t be, op = .exit t c be → x.state ≠ .opened)
+    (hexitMid : ∀ t be k, op = .exitMid t c be k → x.state ≠ .opened) :
     ∃ y, (step w op).1.ctx? c = some y ∧ y.parent = x.parent ∧ y.state = x.state ∧
       y.token = x.token := by
   rcases step_cases w op with h | ⟨c', x', y', hx', h, hl⟩ | ⟨t, c', p, rfl, hc', q, h⟩ |
-      ⟨t, c', x', rfl, hx', hs'⟩ | ⟨t, c', be, x', rfl, hx', hs'⟩ | ⟨t, t', rfl⟩
+      ⟨t, c', x', rfl, hx', hs'⟩ | ⟨t, c', be, x', rfl, hx', hs'⟩ |
+      ⟨t, c', be, k, x', rfl, hx', hs'⟩ | ⟨t, t', rfl⟩
   · rw [h]; exact ⟨x, hx, rfl, rfl, rfl⟩
   · rw [h]
     by_cases hcc : c' = c
@@ -698,21 +758,24 @@ theorem step_ctx_other (w : World) (op : Op) (c : CtxId) (x : Ctx) (hx : w.ctx? 
     exact ⟨_, rfl, rfl, rfl, rfl⟩
   · have hcc : c' ≠ c := by
       rintro rfl; rw [hx] at hx'; cases hx'; exact hexit t be rfl hs'
-    obtain ⟨w2, hu, he⟩ := step_exit_eq w t c' be x' hx' hs'
-    obtain ⟨ch, hch⟩ := hu.ctx?_some c x
-      (by rw [World.ctx?_setCur, World.ctx?_setCtx_other _ _ _ _ hcc]; exact hx)
-    rw [he, hch]
-    exact ⟨_, rfl, rfl, rfl, rfl⟩
+    rw [step_exit_exitWith]
+    exact exitWith_ctx_other w t c' be _ x' hx' hs' c x hx hcc
+  · have hcc : c' ≠ c := by
+      rintro rfl; rw [hx] at hx'; cases hx'; exact hexitMid t be k rfl hs'
+    rw [step_exitMid_exitWith]
+    exact exitWith_ctx_other w t c' be _ x' hx' hs' c x hx hcc
   · exact ⟨x, by simpa [step] using hx, rfl, rfl, rfl⟩
 
-/-- Only `.enter`, `.exit` and `.spawn` write a current-context variable. -/
+/-- Only `.enter`, `.exit`, `.exitMid` and `.spawn` write a current-context variable. -/
 theorem step_cur (w : World) (op : Op) :
     (step w op).1.cur = w.cur ∨
     (∃ t c, op = .enter t c ∧ (step w op).1.cur = ainsert t (some c) w.cur) ∨
     (∃ t c be v, op = .exit t c be ∧ (step w op).1.cur = ainsert t v w.cur) ∨
+    (∃ t c be k v, op = .exitMid t c be k ∧ (step w op).1.cur = ainsert t v w.cur) ∨
     (∃ t t', op = .spawn t t' ∧ (step w op).1.cur = ainsert t' (w.curOf t) w.cur) := by
   rcases step_cases w op with h | ⟨c', x', y', hx', h, hl⟩ | ⟨t, c', p, rfl, hc', q, h⟩ |
-      ⟨t, c', x', rfl, hx', hs'⟩ | ⟨t, c', be, x', rfl, hx', hs'⟩ | ⟨t, t', rfl⟩
+      ⟨t, c', x', rfl, hx', hs'⟩ | ⟨t, c', be, x', rfl, hx', hs'⟩ |
+      ⟨t, c', be, k, x', rfl, hx', hs'⟩ | ⟨t, t', rfl⟩
   · left; rw [h]
   · left; rw [h]; rfl
   · left; rw [h]; rfl
@@ -724,8 +787,29 @@ theorem step_cur (w : World) (op : Op) :
     obtain ⟨w2, hu, he⟩ := step_exit_eq w t c' be x' hx' hs'
     refine ⟨t, c', be, x'.token.getD none, rfl, ?_⟩
     rw [he, hu.cur]; rfl
-  · right; right; right; exact ⟨t, t', rfl, rfl⟩
+  · right; right; right; left
+    obtain ⟨w2, hu, he⟩ := step_exitMid_eq w t c' be k x' hx' hs'
+    refine ⟨t, c', be, k, x'.token.getD none, rfl, ?_⟩
+    rw [he, hu.cur]; rfl
+  · right; right; right; right; exact ⟨t, t', rfl, rfl⟩
 
+/-- An open context stays open, with its reset token, over any history that does not leave it. -/
+theorem run_open_stable (c : CtxId) (tok : Option (Option CtxId)) (ops : List Op) :
+    ∀ w' : World,
+      (∀ op ∈ ops, (∀ t' be', op ≠ .exit t' c be') ∧ (∀ t' be' k, op ≠ .exitMid t' c be' k)) →
+      (∃ y, w'.ctx? c = some y ∧ y.state = .opened ∧ y.token = tok) →
+      ∃ y, (run w' ops).1.ctx? c = some y ∧ y.state = .opened ∧ y.token = tok := by
+  induction ops with
+  | nil => intro w' _ h; exact h
+  | cons op ops ih =>
+    intro w' hops' ⟨y, hy, hst, htok⟩
+    have hop := hops' op List.mem_cons_self
+    simp only [run]
+    apply ih _ (fun o ho => hops' o (List.mem_cons_of_mem _ ho))
+    obtain ⟨y', hy', _, hst', htok'⟩ := step_ctx_other w' op c y hy
+      (fun t' _ => by rw [hst]; simp) (fun t' be' e => absurd e (hop.1 t' be'))
+      (fun t' be' k e => absurd e (hop.2 t' be' k))
+    exact ⟨y', hy', hst'.trans hst, htok'.trans htok⟩
 
 /-! ### more association-list facts -/
 
@@ -1149,9 +1233,22 @@ theorem WInv.childrenUpd {w1 w2 : World} (h : WInv w1) (hu : ChildrenUpd w1 w2) 
     rw [hch] at hy; cases hy
     exact (h d z hd).congr rfl rfl rfl rfl
 
+theorem WInv.exitWith {w : World} (h : WInv w) (t : TaskId) (c : CtxId) (be : BlockEnd)
+    (stk : List Cb → List Cb) (x : Ctx) (hx : w.ctx? c = some x) (hs : x.state = .opened) :
+    WInv (exitWith w t c be stk).1 := by
+  obtain ⟨w2, hu, he⟩ := exitWith_eq w t c be stk x hx hs
+  rw [he]
+  refine WInv.childrenUpd
+    (w1 := (w.setCtx c (exitedWith c (w.curOf t) be (stk x.tds) x)).setCur t (x.token.getD none)) ?_ hu
+  have hk : KInv (exitedWith c (w.curOf t) be (stk x.tds) x) :=
+    (KInv.runTeardown (x := { x with state := .closing, tds := [] })
+      ((h c x hx).congr rfl rfl rfl rfl) c (w.curOf t) be (stk x.tds)).congr rfl rfl rfl rfl
+  exact h.setCtx c _ hk
+
 theorem WInv.step {w : World} (h : WInv w) (op : Op) : WInv (step w op).1 := by
   rcases step_cases w op with e | ⟨c, x, y, hx, e, hl⟩ | ⟨t, c, p, rfl, hc, q, e⟩ |
-      ⟨t, c, x, rfl, hx, hs⟩ | ⟨t, c, be, x, rfl, hx, hs⟩ | ⟨t, t', rfl⟩
+      ⟨t, c, x, rfl, hx, hs⟩ | ⟨t, c, be, x, rfl, hx, hs⟩ | ⟨t, c, be, k, x, rfl, hx, hs⟩ |
+      ⟨t, t', rfl⟩
   · rw [e]; exact h
   · rw [e]; exact h.setCtx c y (hl.kinv (h c x hx))
   · rw [e]
@@ -1165,13 +1262,8 @@ theorem WInv.step {w : World} (h : WInv w) (op : Op) : WInv (step w op).1 := by
     rw [he]
     have : WInv w2 := (h.setCtx c (enteredCtx w t x) ((h c x hx).congr rfl rfl rfl rfl)).childrenUpd hu
     exact this
-  · obtain ⟨w2, hu, he⟩ := step_exit_eq w t c be x hx hs
-    rw [he]
-    refine WInv.childrenUpd (w1 := (w.setCtx c (exitedCtx c (w.curOf t) be x)).setCur t (x.token.getD none)) ?_ hu
-    have hk : KInv (exitedCtx c (w.curOf t) be x) :=
-      (KInv.runTeardown (x := { x with state := .closing, tds := [] })
-        ((h c x hx).congr rfl rfl rfl rfl) c (w.curOf t) be (effStack be x.tds)).congr rfl rfl rfl rfl
-    exact h.setCtx c _ hk
+  · rw [step_exit_exitWith]; exact h.exitWith t c be _ x hx hs
+  · rw [step_exitMid_exitWith]; exact h.exitWith t c be _ x hx hs
   · exact h
 
 theorem reachable_winv {w : World} (hr : Reachable w) : WInv w := by
